@@ -132,7 +132,7 @@ def api_impl(a):
     rootpath = None
     if sel.get("rootkept"):
         # the evaluation is a top-level dds.keep(rootpath, top): the root's own path takes part in the overlap test
-        rl = a["lr"]
+        rl = sel["lr"] if "lr" in sel else a["lr"]
         rsegs = [a["r_%d" % j] for j in range(3)]
         for j in range(rl, 3):
             if rsegs[j] != 0:
@@ -225,8 +225,9 @@ def make_fn(fn, sel, tag):
                 params.append(("pre", "int"))
                 pres.append("0 <= pre <= 1")
             if sel.get("rootkept"):
-                params.append(("lr", "int"))
-                pres.append("1 <= lr <= %d" % sel.get("maxlr", 3))
+                if "lr" not in sel:
+                    params.append(("lr", "int"))
+                    pres.append("1 <= lr <= %d" % sel.get("maxlr", 3))
                 for j in range(3):
                     params.append(("r_%d" % j, "int"))
                     pres.append("0 <= r_%d < %d" % (j, na))
@@ -254,7 +255,8 @@ def queries(tier):
     # the same with the root function itself kept at a solver-chosen path (inner paths of 1..2 segments)
     for l0 in (1, 2):
         for pre in (0, 1):
-            qs.append({"id": "api.rootkept.l%d.pre%d" % (l0, pre), "fn": "api", "sel": {"alpha": ["f", "g", "x"], "native": True, "l0": l0, "l1": 1, "l2": 1, "rootkept": True, "pre": pre, "maxlr": 2}, "timeout": 900})
+            for lr in (1, 2):
+                qs.append({"id": "api.rootkept.l%d.pre%d.r%d" % (l0, pre, lr), "fn": "api", "sel": {"alpha": ["f", "g", "x"], "native": True, "l0": l0, "l1": 1, "l2": 1, "rootkept": True, "pre": pre, "lr": lr}, "timeout": 900})
     for L in (1, 2, 3):
         for kind in ("call", "keep", "href"):
             qs.append({"id": "cycle.%d.%s" % (L, kind), "fn": "prog", "sel": {"family": "cycle", "L": L, "kind": kind}, "timeout": 200})
